@@ -27,6 +27,50 @@ def run_checks(dst):
     return hits
 
 
+def _fast_one(sid):
+    """scratch copy of the modules + patch, every check with --root (parallel; /repo itself is not touched)"""
+    import tempfile
+    dst = os.path.join(VERIF, 'seeded', sid)
+    d = tempfile.mkdtemp(prefix='keep_seeds_')
+    try:
+        for f in os.listdir('/repo'):
+            if f.endswith('.py'): shutil.copy(os.path.join('/repo', f), d)
+        rc, out = sh('patch -s -p1 -i %s' % os.path.join(dst, 'patch.diff'), cwd=d)
+        if rc != 0: return sid, None
+        hits = {}
+        for p in CMDS:
+            rc, out = sh('/venv/bin/python -m pytough_sa check %s --root %s --no-write' % (p, d), cwd=VERIF)
+            if rc == 1: hits[p] = sorted(set(re.findall(r'violated: \[(\w+)\]', out)))
+            elif rc == 2: hits.setdefault('_analysis_error', []).append(p)
+        return sid, hits
+    finally:
+        shutil.rmtree(d, ignore_errors=True)
+
+
+def recheck_fast():
+    """like --recheck, but on scratch copies and 16 at a time (for routine use; the recorded run of each change is the in-place one)"""
+    import multiprocessing as mp
+    base = os.path.join(VERIF, 'seeded')
+    sids = [s_ for s_ in sorted(os.listdir(base)) if os.path.exists(os.path.join(base, s_, 'meta.json'))]
+    with mp.Pool(16) as pool:
+        res = pool.map(_fast_one, sids)
+    for sid, hits in res:
+        mp_ = os.path.join(base, sid, 'meta.json')
+        meta = json.load(open(mp_))
+        if hits is None:
+            if not meta.get('note'): meta['note'] = 'patch no longer applies to the current tree'
+            meta['caught'] = None
+        else:
+            meta['reported_by'] = dict((k, v) for k, v in hits.items() if not k.startswith('_'))
+            meta['analysis_errors'] = hits.get('_analysis_error', [])
+            meta['caught'] = bool(meta['reported_by'])
+        json.dump(meta, open(mp_, 'w'), indent=1)
+        if not meta['caught']: print(sid, 'n/a' if meta['caught'] is None else 'missed', meta.get('analysis_errors'))
+    summary()
+    print('%d changes: %d reported, %d missed, %d not applicable' % (len(res), sum(1 for s_, h in res if h and [k for k in h if not k.startswith('_')]),
+          sum(1 for s_, h in res if h is not None and not [k for k in h if not k.startswith('_')]), sum(1 for s_, h in res if h is None)))
+
+
 def recheck():
     """re-run the registered checks against every kept change (after the checks were strengthened)"""
     base = os.path.join(VERIF, 'seeded')
@@ -61,6 +105,7 @@ def summary():
 
 def main():
     if sys.argv[1] == '--recheck': return recheck()
+    if sys.argv[1] == '--recheck-fast': return recheck_fast()
     resdir, outdir = sys.argv[1], sys.argv[2]
     rnd = int(sys.argv[3]) if len(sys.argv) > 3 else 1
     letter = {1: {'A': 'A', 'B': 'B'}, 2: {'A': 'C', 'B': 'D'}, 3: {'A': 'E', 'B': 'F'}}[rnd]
